@@ -854,9 +854,11 @@ const (
 	c15OptNilFactory = iota // the round's shared &mesgdef.Options{} (Factory nil)
 	c15OptNil               // nil options
 	c15OptPreset            // the round's shared options with Factory preset
+	c15OptOwnDefault        // the operation's own value from mesgdef.DefaultOptions(), customised by the operation
+	c15OptOwnDefaultPlain   // the same, IncludeExpandedFields left as it came
 )
 
-var c15OptNames = []string{"shared_nil_factory", "nil", "shared_preset"}
+var c15OptNames = []string{"shared_nil_factory", "nil", "shared_preset", "own_default_customised", "own_default"}
 
 // c15MesgdefOp: the messages are the operation's own (decoded in mk from its own copy of the fixture);
 // the concurrent part is only the typed conversion.
@@ -903,6 +905,14 @@ func c15MesgdefOp(c *c15Cfg, r *rng, name string, optKind int) c15Op {
 			return func() string {
 				d := c15NewDig()
 				conv := 0
+				switch optKind {
+				case c15OptOwnDefault: // documented use: take the defaults, adjust the own copy
+					o = mesgdef.DefaultOptions()
+					o.IncludeExpandedFields = true
+				case c15OptOwnDefaultPlain:
+					o = mesgdef.DefaultOptions()
+					o.IncludeExpandedFields = false
+				}
 				for i := range win {
 					out, ok := c15Convert(&win[i], o)
 					if !ok {
@@ -924,7 +934,7 @@ func c15GenMesgdefNilFactory(c *c15Cfg, r *rng) c15Op {
 }
 
 func c15GenMesgdefShared(c *c15Cfg, r *rng) c15Op {
-	return c15MesgdefOp(c, r, "mesgdef_tomesg", r.pick(c15OptNil, c15OptPreset))
+	return c15MesgdefOp(c, r, "mesgdef_tomesg", r.pick(c15OptNil, c15OptPreset, c15OptNil, c15OptOwnDefault, c15OptOwnDefaultPlain))
 }
 
 // ---------------------------------------------------------------------------------------------------------
